@@ -67,6 +67,29 @@ EXPRS = [
     ("expr", "src/lib.rs", "grow", ("arg", "try_alloc_layout_fast", 1, 0), "grow_extra_layout"),
     ("expr", "src/lib.rs", "grow", ("arg", "copy", 1, 2), "grow_in_place_copy_len"),
     ("expr", "src/lib.rs", "grow", ("arg", "copy_nonoverlapping", 1, 2), "grow_fresh_copy_len"),
+    # the getters and reset's accounting
+    ("src/lib.rs", "chunk_capacity"),
+    ("src/lib.rs", "allocated_bytes"),
+    ("expr", "src/lib.rs", "reset", ("assign", "allocated_bytes", 1), "reset_allocated_bytes"),
+    # alloc_layout_slow: the first candidate size, the small-limit bypass and the loop condition
+    ("expr", "src/lib.rs", "alloc_layout_slow", ("let", "min_new_chunk_size", 1), "slow_min_new_chunk_size"),
+    ("expr", "src/lib.rs", "alloc_layout_slow", ("let", "base_size", 1), "slow_first_candidate"),
+    ("expr", "src/lib.rs", "alloc_layout_slow", ("let", "bypass_min_chunk_size_for_small_limits", 1), "slow_bypass"),
+    ("expr", "src/lib.rs", "alloc_layout_slow", ("if", 2), "slow_try_candidate_cond"),   # (if #1 is the guard inside matches!)
+]
+# statements around those expressions that have no value to translate: their text, whitespace-free,
+# must occur in the function (a rewrite of them fails the obligation src_frames_ok)
+FRAMES = [
+    ("src/lib.rs", "alloc_layout_slow", "candidate_loop_body",
+     "letsize=base_size;base_size/=2;tried_zero=size==0;Self::new_chunk_memory_details(Some(size),layout)"),
+    ("src/lib.rs", "alloc_layout_slow", "candidate_filter",
+     "ifSelf::chunk_fits_under_limit(allocation_limit_remaining,chunk_memory_details,){Self::new_chunk(chunk_memory_details,layout,current_footer)}else{None}}).next()?;"),
+    ("src/lib.rs", "alloc_layout_slow", "install_and_allocate",
+     "self.current_chunk_footer.set(new_footer);letptr=self.try_alloc_layout_fast(layout);"),
+    ("src/lib.rs", "reset", "reset_frees_all_but_current",
+     "letprev_chunk=cur_chunk.as_ref().prev.replace(EMPTY_CHUNK.get());dealloc_chunk_list(prev_chunk);"),
+    ("src/lib.rs", "reset", "reset_finger_to_footer", "cur_chunk.as_ref().ptr.set(cur_chunk.cast());"),
+    ("src/lib.rs", "reset", "reset_empty_is_noop", "ifself.current_chunk_footer.get().as_ref().is_empty(){return;}"),
 ]
 # methods of `self` that are functions of the table when called with one argument
 SELF_FNS = {"is_last_allocation"}
@@ -381,7 +404,11 @@ class Parser:
                     raise Unsupported("after `.`")
                 m = self.eat()
                 if self.peek() == "::":
-                    raise Unsupported("turbofish")
+                    if self.peek(1) == "<":
+                        self.eat()
+                        self.skip_balanced("<", ">")      # .cast::<u8>(): the type argument changes no value
+                    else:
+                        raise Unsupported("turbofish")
                 if self.peek() == "(":
                     a = self.args()
                     if len(a) == 0:
@@ -437,6 +464,24 @@ class Parser:
         if tok in ("true", "false"):
             self.eat()
             return "(EBool %s)" % tok
+        if tok == "matches!":
+            # matches!(e, Some(x) if guard)  ==  match e { Some(x) => guard, None => false }
+            self.eat()
+            self.eat("(")
+            e = self.expr()
+            self.eat(",")
+            if self.eat() != "Some":
+                raise Unsupported("matches! pattern")
+            self.eat("(")
+            x = self.eat()
+            self.eat(")")
+            if self.peek() == "if":
+                self.eat()
+                g = self.expr()
+            else:
+                g = "(EBool true)"
+            self.eat(")")
+            return "(EMatchOpt %s %s %s (EBool false))" % (e, q(x), g)
         if tok in ("panic!", "unreachable!", "unimplemented!"):
             self.eat()
             self.skip_balanced("(", ")")
@@ -698,6 +743,25 @@ def extract_expr(toks, locator):
         if p.peek() != "{":
             raise Unsupported("condition not followed by a block")
         pos, path, used = tgt["at"], tgt["path"], set(vals[tgt["start"]:p.i])
+    elif locator[0] == "assign":
+        # right-hand side of the k-th `<place>.FIELD = expr;`
+        _, field, k = locator
+        hits = [i for i in range(2, len(vals) - 1) if vals[i] == field and vals[i - 1] == "." and vals[i + 1] == "="]
+        if len(hits) < k:
+            raise Unsupported("assignment to .%s #%d not found" % (field, k))
+        at = hits[k - 1]
+        p = Parser(toks)
+        p.i = at + 2
+        term = p.expr()
+        if p.peek() != ";":
+            raise Unsupported("assignment right-hand side not fully parsed")
+        stack = []
+        for i in range(at):
+            if vals[i] == "{":
+                stack.append(i)
+            elif vals[i] == "}":
+                stack.pop()
+        pos, path, used = at, tuple(stack), set(vals[at + 2:p.i])
     else:
         _, callee, k, argi = locator
         cands = [c for c in calls if c["name"] == callee]
@@ -911,6 +975,18 @@ def emit(repo):
     out.append("Open Scope N_scope.")
     out.append("Definition src_fns : fntab := [")
     out.append(";\n".join('  (%s, mkFn [%s]\n    %s)' % (q(n), "; ".join(q(p) for p in ps), t) for n, ps, t in fns))
+    out.append("].")
+    frames = []
+    for path, fname, label, text in FRAMES:
+        try:
+            src = strip_comments(open(os.path.join(repo, path)).read())
+            found = find_fn(src, fname)
+            ok = bool(found) and text in re.sub(r"\s+", "", found[1])
+        except OSError:
+            ok = False
+        frames.append((label, ok))
+    out.append("Definition src_frames : list (string * bool) := [")
+    out.append(";\n".join("  (%s, %s)" % (q(l), "true" if ok else "false") for l, ok in frames))
     out.append("].")
     out.append("Definition src_consts : list (string * expr) := [")
     out.append(";\n".join("  (%s, %s)" % (q(n), t) for n, t in consts))
